@@ -56,6 +56,11 @@ class Management:
             self.xknx.task_registry.background(
                 self.xknx.cemi_handler.send_telegram(ack)
             )
+        if isinstance(telegram.tpci, TDataBroadcast):
+            # not part of a point-to-point connection - also if one is open to the sender
+            for context in self._broadcast_contexts:
+                context.queue.put_nowait(telegram)
+            return
         if conn := self._connections.get(telegram.source_address):
             conn.process(telegram)
             return
@@ -75,10 +80,6 @@ class Management:
             self.xknx.task_registry.background(
                 self.xknx.cemi_handler.send_telegram(disconnect)
             )
-            return
-        if isinstance(telegram.tpci, TDataBroadcast):
-            for context in self._broadcast_contexts:
-                context.queue.put_nowait(telegram)
             return
         logger.debug("Unhandled management telegram: %r", telegram)
         return
